@@ -1,50 +1,56 @@
 //go:build verif
 
 // Contracts for package netpoll, used by /verif/gvc (see /verif/DESIGN.md).
-// The registration functions are thin wrappers over epoll_ctl with bit-level event masks; they are not
-// verified here (noverify) and act as assumed contracts over the ghost state polled/armed of
-// /verif/contracts/trusted/unix.spec.
+// The registration functions are thin wrappers over epoll_ctl; they are verified against the assumed contract of
+// unix.EpollCtl (/verif/contracts/trusted/unix.spec: ghost state polled/armed, registered mask evmask, user data evdata).
+// Trigger and Polling are not verified (noverify) and act as assumed contracts.
 
 package netpoll
 
 //@ import errorx "github.com/panjf2000/gnet/v2/pkg/errors"
+// Event-mask predicates over the registered mask evmask[fd] (EPOLLIN = 1, EPOLLPRI = 2, EPOLLOUT = 4, EPOLLRDHUP = 0x2000,
+// EPOLLET = 0x80000000): rdint = read interest, etmode = edge-triggered registration, regok = what every registration of
+// a connection must provide: read interest always, the descriptor number as user data (Polling dispatches on it), and
+// edge-triggered mode together with EPOLLRDHUP exactly when asked for.
+//@ pure rdint(fd int) bool := (evmask[fd] & 1) != 0
+//@ pure etmode(fd int) bool := (evmask[fd] & 2147483648) != 0
+//@ pure regok(fd int, et bool) bool := rdint(fd) && (etmode(fd) <==> et) && (et ==> (evmask[fd] & 8192) != 0) && (0 <= fd && fd < 2147483648 ==> evdata[fd] == fd)
+//
 //@ func (p *Poller) AddRead(pa *PollAttachment, edgeTriggered bool) (err error)
-//@   noverify epoll_ctl wrapper with bit-level event masks
 //@   requires p != nil && pa != nil && owner[pa.FD] != nil
 //@   modifies polled[pa.FD], armed[pa.FD]
-//@   ensures err == nil ==> polled[pa.FD] && !armed[pa.FD]
+//@   ensures err == nil ==> polled[pa.FD] && !armed[pa.FD] && regok(pa.FD, edgeTriggered)
 //@   ensures err != nil ==> polled[pa.FD] == old(polled[pa.FD]) && armed[pa.FD] == old(armed[pa.FD])
 //@   ensures err != errorx.ErrEngineShutdown
 //
 //@ func (p *Poller) AddReadWrite(pa *PollAttachment, edgeTriggered bool) (err error)
-//@   noverify epoll_ctl wrapper with bit-level event masks
 //@   requires p != nil && pa != nil && owner[pa.FD] != nil
 //@   modifies polled[pa.FD], armed[pa.FD]
-//@   ensures err == nil ==> polled[pa.FD] && armed[pa.FD]
+//@   ensures err == nil ==> polled[pa.FD] && armed[pa.FD] && regok(pa.FD, edgeTriggered)
 //@   ensures err != nil ==> polled[pa.FD] == old(polled[pa.FD]) && armed[pa.FD] == old(armed[pa.FD])
 //@   ensures err != errorx.ErrEngineShutdown
 //
 //@ func (p *Poller) ModRead(pa *PollAttachment, edgeTriggered bool) (err error)
-//@   noverify epoll_ctl wrapper with bit-level event masks
 //@   requires p != nil && pa != nil && owner[pa.FD] != nil && polled[pa.FD]
-//@   modifies armed[pa.FD]
-//@   ensures err == nil ==> !armed[pa.FD]
+//@   modifies armed[pa.FD], polled[pa.FD]
+//@   ensures err == nil ==> !armed[pa.FD] && regok(pa.FD, edgeTriggered)
 //@   ensures err != nil ==> armed[pa.FD] == old(armed[pa.FD])
+//@   ensures polled[pa.FD]
 //@   ensures err != errorx.ErrEngineShutdown
 //
 //@ func (p *Poller) ModReadWrite(pa *PollAttachment, edgeTriggered bool) (err error)
-//@   noverify epoll_ctl wrapper with bit-level event masks
 //@   requires p != nil && pa != nil && owner[pa.FD] != nil && polled[pa.FD]
-//@   modifies armed[pa.FD]
-//@   ensures err == nil ==> armed[pa.FD]
+//@   modifies armed[pa.FD], polled[pa.FD]
+//@   ensures err == nil ==> armed[pa.FD] && regok(pa.FD, edgeTriggered)
 //@   ensures err != nil ==> armed[pa.FD] == old(armed[pa.FD])
+//@   ensures polled[pa.FD]
 //@   ensures err != errorx.ErrEngineShutdown
 //
 //@ func (p *Poller) Delete(fd int) (err error)
-//@   noverify epoll_ctl wrapper
 //@   requires p != nil && owner[fd] != nil
 //@   modifies polled[fd], armed[fd]
 //@   ensures err == nil ==> !polled[fd] && !armed[fd]
+//@   ensures err != nil ==> polled[fd] == old(polled[fd]) && armed[fd] == old(armed[fd])
 //@   ensures err != errorx.ErrEngineShutdown
 //
 // Trigger: the task is queued for the loop that owns the poller and runs there later, once (property C03, assumed).
